@@ -203,7 +203,7 @@ func loadPrelude(dir string) (*Prelude, error) {
 // declarations of used symbols (transitively) and every axiom all of whose
 // prelude symbols are already included (axioms never pull in new symbols, except
 // their own declared dependencies which must all be present).
-func (p *Prelude) selectBlocks(used map[string]bool) string {
+func (p *Prelude) selectBlocks(used map[string]bool, axiomTriggers map[string]bool) string {
 	inc := map[*PreludeBlock]bool{}
 	var add func(b *PreludeBlock)
 	add = func(b *PreludeBlock) {
@@ -236,6 +236,9 @@ func (p *Prelude) selectBlocks(used map[string]bool) string {
 				if d, ok := p.byDef[u]; ok {
 					if _, isfn := p.Fns[u]; isfn {
 						trigger = inc[d]
+						if axiomTriggers != nil && !axiomTriggers[u] {
+							trigger = false
+						}
 						break
 					}
 				}
@@ -258,7 +261,7 @@ func (p *Prelude) selectBlocks(used map[string]bool) string {
 
 // ---------- emission ----------
 
-func (o *Obligation) emit(p *Prelude, noCOI bool) string {
+func (o *Obligation) emit(p *Prelude, noCOI bool, lean bool) string {
 	facts := o.facts[:o.NFacts]
 	// cone of influence
 	need := map[*Term]bool{}
@@ -351,7 +354,38 @@ func (o *Obligation) emit(p *Prelude, noCOI bool) string {
 			funs[sym] = true
 		}
 	}
-	sb.WriteString(p.selectBlocks(funs))
+	if lean {
+		gv, gf := map[*Term]bool{}, map[string]bool{}
+		o.Goal.collect(gv, gf, map[*Term]bool{}, map[*Term]int{})
+		// axioms may chain (sdiv -> smul): close the trigger set over axiom texts
+		for changed := true; changed; {
+			changed = false
+			for _, b := range p.Blocks {
+				if len(b.Defines) > 0 {
+					continue
+				}
+				head := ""
+				for _, u := range b.Uses {
+					if _, isfn := p.Fns[u]; isfn {
+						head = u
+						break
+					}
+				}
+				if head == "" || !gf[head] {
+					continue
+				}
+				for _, u := range b.Uses {
+					if _, isfn := p.Fns[u]; isfn && !gf[u] {
+						gf[u] = true
+						changed = true
+					}
+				}
+			}
+		}
+		sb.WriteString(p.selectBlocks(funs, gf))
+	} else {
+		sb.WriteString(p.selectBlocks(funs, nil))
+	}
 	sort.Slice(vars, func(i, j int) bool { return vars[i].id < vars[j].id })
 	for _, v := range vars {
 		if _, isPre := p.Fns[v.Name]; isPre {
@@ -438,17 +472,46 @@ var solverSeconds = map[string]float64{}
 var solverWins = map[string]int{}
 var statMu sync.Mutex
 
-// discharge runs the portfolio on one obligation.
+// discharge runs the portfolio on one obligation: first with the prelude axioms
+// restricted to those triggered by symbols of the goal itself ("lean", a sound
+// weakening of the hypotheses), then with every axiom reachable from the cone.
 func (o *Obligation) discharge(p *Prelude, tmpdir string, timeoutS int) {
 	if o.Status != "" {
 		return
 	}
-	text := o.emit(p, false)
-	o.SMTSize = len(text)
-	file := filepath.Join(tmpdir, sanitize(o.Func+"."+o.Name)+".smt2")
-	if len(file) > 200 {
-		file = file[:200] + ".smt2"
+	leanT := timeoutS / 2
+	if leanT < 5 {
+		leanT = timeoutS
 	}
+	if o.Cover {
+		o.dischargeOnce(p, tmpdir, timeoutS, false)
+		return
+	}
+	o.dischargeOnce(p, tmpdir, leanT, true)
+	if o.Status == "proved" {
+		return
+	}
+	leanOut, leanSecs := o.Output, o.Seconds
+	o.Status, o.Output, o.Model = "", "", nil
+	o.dischargeOnce(p, tmpdir, timeoutS, false)
+	o.Seconds += leanSecs
+	if o.Status != "proved" {
+		o.Output = o.Output + "\n[lean attempt] " + leanOut
+	}
+}
+
+func (o *Obligation) dischargeOnce(p *Prelude, tmpdir string, timeoutS int, lean bool) {
+	text := o.emit(p, false, lean)
+	o.SMTSize = len(text)
+	suffix := ".smt2"
+	if lean {
+		suffix = ".lean.smt2"
+	}
+	base := sanitize(o.Func + "." + o.Name)
+	if len(base) > 180 {
+		base = base[:180]
+	}
+	file := filepath.Join(tmpdir, base+suffix)
 	o.SMTFile = file
 	if len(text) > 8<<20 {
 		o.Status = "error"
@@ -477,7 +540,7 @@ func (o *Obligation) discharge(p *Prelude, tmpdir string, timeoutS int) {
 		statMu.Lock()
 		solverSeconds[r.solver] += r.secs
 		statMu.Unlock()
-		if r.status == "unsat" || r.status == "sat" {
+		if r.status == "unsat" || (r.status == "sat" && (!lean || o.Cover)) {
 			win = &r
 			cancel()
 			break
